@@ -210,7 +210,7 @@ func H_C05_roundtrip() {
 		vAssert("same-id", back == id)
 	}
 	// UnmarshalText / MarshalText / String / URN
-	var u ID
+	u := ID{Higher: vU64("prev.hi"), Lower: vU64("prev.lo")} // whatever the variable held before
 	uerr := u.UnmarshalText(text)
 	vAssert("unmarshaltext", uerr == nil && u == id)
 	mt, merr := id.MarshalText()
@@ -218,7 +218,24 @@ func H_C05_roundtrip() {
 	vAssert("marshaltext-is-plain", merr == nil && string(mt) == string(plain))
 	vAssert("string-is-plain", id.String() == string(plain))
 	vAssert("urn-is-prefix-plus-plain", id.URN() == "urn:uuid:"+string(plain))
+	// fmt verbs: %u is the URN form, every other verb the plain form
+	var su, ss, so vState
+	id.Format(&su, 'u')
+	id.Format(&ss, 's')
+	verb := rune(vU8("verb"))
+	vAssume(verb != 'u')
+	id.Format(&so, verb)
+	vAssert("verb-u-is-urn", string(su.buf) == "urn:uuid:"+string(plain))
+	vAssert("verb-s-is-plain", string(ss.buf) == string(plain))
+	vAssert("other-verb-is-plain", string(so.buf) == string(plain))
 }
+
+type vState struct{ buf []byte }
+
+func (s *vState) Write(b []byte) (int, error) { s.buf = append(s.buf, b...); return len(b), nil }
+func (s *vState) Width() (int, bool)          { return 0, false }
+func (s *vState) Precision() (int, bool)      { return 0, false }
+func (s *vState) Flag(c int) bool             { return false }
 
 func hasAlphaDigit(id ID) bool {
 	for k := 0; k < 32; k++ {
